@@ -13,6 +13,7 @@ import contracts.tabeam as TB
 import contracts.eam_tabulation as ET
 import contracts.actions as ACT
 import contracts.excel_eam as XL
+import contracts.excel as XS
 
 # every function on a path from a tabulation's write() to an evaluation of a user callable: each carries an exceptional
 # postcondition "the caller's document is unchanged" (writers that stream into a buffer handed to them say so: on_raise = []
